@@ -103,7 +103,9 @@ func H_C04_step() {
 		d, dk := s.dirtyOffsets.Load(k[i])
 		assert(dk == preDirtyFound[i] && (!dk || d == preDirtyVal[i]), "other vBucket dirty mark untouched")
 	}
-	assert(s.anyDirtyOffset == preFlag, "setOffset does not touch the save flag")
+	if !(accepted && dirty) {
+		assert(s.anyDirtyOffset == preFlag, "save flag untouched unless a position was accepted and flagged")
+	}
 }
 
 // H_C04_perm (bounded history): one vBucket, K delivered events with arbitrary
